@@ -280,11 +280,16 @@ def sym_checkpoint(vc):
     vc.under_contract(P + 'checkpoint.py', ['checkpoint', 'filename'])
     vc.under_contract(P + 'checkpoint.py', ['checkpoint', '__init__'])
 
-    def thunk(it):
+    def thunk(it, with_resources=False):
         CP = real_function(it, 'dataflows.processors.checkpoint', 'checkpoint')
         name, base = sym_str(it, 'cpname'), sym_str(it, 'cppath')
-        s1, s2 = ufunc('step1'), ufunc('step2')
-        cp = it.call(CP, [name], dict(checkpoint_path=base))
+        s1, s2 = ufunc('step1', pure=False), ufunc('step2', pure=False)
+        kw = dict(checkpoint_path=base)
+        if with_resources:
+            # the documented `resources` argument: whatever it selects, CHAINING a checkpoint evaluates nothing and decides by the
+            # existence of the final file alone (C06 / C08: the steps run when -- and only when -- the stream is consumed)
+            kw['resources'] = sym_str(it, 'cp_resources')
+        cp = it.call(CP, [name], kw)
         # the same checkpoint object may be run again (a Flow object run in a loop, retried by a scheduler): whatever its
         # methods may have cached on it earlier is arbitrary
         from contracts.common import havoc_mutable_scalars
@@ -344,7 +349,11 @@ def sym_checkpoint(vc):
                     term(opens[0].objs[0], StrS) == z3.Concat(final, z3.StringVal('.active')), _b(opens[0].objs[1] == 'w')))
             check(it, 'save-opens-exactly-one-file', len(opens) == 1)
             cover(it, 'save-reachable')
+        check(it, 'chaining-runs-none-of-the-steps', not [e for e in it.path.events if e.kind == 'Call' and
+                                                         getattr(e, 'target', None) in ('step1', 'step2', s1, s2)])
     paths = vc.explore(fk, thunk, min_paths=2)
+    expect_no_raise_or_same(vc, fk, paths)
+    paths = vc.explore(fk, lambda it: thunk(it, with_resources=True), min_paths=2)
     expect_no_raise_or_same(vc, fk, paths)
 
 
